@@ -414,6 +414,7 @@ func TestC07(t *testing.T) {
 	r.Rule = "rapid: generated program + request with <= ~4 segments; file universe = files left by a complete run on an empty cache plus the partial stores harvested after each segment job (before the squasher deletes them) plus truncated debris under dstore's temporary name; each case tries 3..8 subsets (crash points = prefixes of the write order, single evictions, random subsets; thorough: every subset when the universe has <= 12 files); oracle: the request completes, its stream and final stores satisfy the C01 oracle against the sequential execution, every file left behind that the clean run also leaves decodes to equivalent content (stores typed, outputs, index bitmaps); non-trivial = subset neither empty nor the whole universe; counters report subsets run"
 	rapid.Check(t, func(rt *rapid.T) {
 		c := genC07(rt)
+		r.Begin(c)
 		f, st := checkC07(c)
 		cl := []string{fmt.Sprintf("universe<=%d", bucketInt(st.universe)), fmt.Sprintf("prod=%v", c.Run.Prod)}
 		if st.withPartial {
